@@ -8,6 +8,8 @@ variables; zero-magnitude bonds are skipped, F21). Core Lean only, so a driver c
 traced region. Soundness: `Qmc.Rvb.Kernel.regionOKb_sound` (QmcProofs/RvbRegionOK.lean).
 -/
 import QmcModel.Rvb
+import QmcModel.Cluster
+import QmcModel.Worldline
 
 namespace Qmc
 namespace Rvb
@@ -30,6 +32,18 @@ def regionOKb (E : Ising) (c : Config) (R : Region) : Bool :=
   E.edges.all (fun e => e.2.2 == 0 ||
     !((everInList c R).contains e.1 || (everInList c R).contains e.2.1) ||
     (R.subvars.contains e.1 && R.subvars.contains e.2.1))
+
+/-- `QmcIsingGraph`'s Hamiltonian for the parameters of `E` as a `Ham` (`= Qmc.Rvb.Kernel.isingHam E`, by `rfl`) -/
+def isingHamM (E : Ising) : Ham :=
+  isingClusterHam (E.edges.map fun e => ([e.1, e.2.1], e.2.2)) E.gamma E.h E.nvars
+
+/-- decider for `Qmc.Rvb.Kernel.MoveOK E N R c c'` — the hypothesis under which the RVB kernel `rvbK` has the
+transition `c → c'` on region `R`: `c'` is an RVB move of `c`; `c` has `N` variables, is consistent and legal for
+the Ising Hamiltonian; the region is well formed; neither sweep of `calculate_flip_prob` is abandoned.
+Soundness: `Qmc.Rvb.Kernel.moveOKb_sound`. -/
+def moveOKb (E : Ising) (N : Nat) (R : Region) (c c' : Config) : Bool :=
+  isRvbMove E c c' R && (c.state.length == N) && decide (Consistent c) && legalB (isingHamM E) c &&
+    regionOKb E c R && !(rvbCodeMult E c R).2 && !(rvbCodeMult E c' R).2
 
 end Rvb
 end Qmc
